@@ -172,6 +172,12 @@ def run_property(prop, tier="quick", seed=0, write_baseline=False, only=None, ve
             proved.append(ob)
             by_backend[v.backend] = by_backend.get(v.backend, 0) + 1
             continue
+        if ob.info.get("strict"):
+            # a statically determined breach of a declared data-structure type: a violation unless the path is dead
+            violations.append((ob, {"obligation": ob.name, "function": getattr(ob, "func", None), "solver": v.raw,
+                                    "note": ob.info.get("why", ""), "trace": ob.trace[-12:], "inputs": None,
+                                    "confirmed": False}))
+            continue
         if v.status == "unknown" and ob.name not in baseline:
             undecided.append(f"{ob.name}: UNDECIDED ({v.reason})")
             continue
@@ -180,7 +186,8 @@ def run_property(prop, tier="quick", seed=0, write_baseline=False, only=None, ve
             # a candidate model of the ground relaxation that does not replay proves nothing
             undecided.append(f"{ob.name}: UNDECIDED (ground candidate did not replay; {v.reason})")
             continue
-        entry = next((e for e in known if e.get("status") == "known" and re.fullmatch(e["obligation"], ob.name)
+        entry = next((e for e in known if e.get("status") == "known" and e.get("obligation")
+                      and re.fullmatch(e["obligation"], ob.name)
                       and witness_matches(e, info.get("inputs"))), None)
         if entry is not None:
             known_hits.append((entry, ob, info))
